@@ -381,10 +381,18 @@ func candidateLogs(snaps []logSnap, lo, hi int) [][]byte {
 			// already have been visible (after the rename, before the unlock)
 			break
 		}
-		if i+1 < len(snaps) && bytes.HasPrefix(snaps[i+1].bytes, s.bytes) {
-			// growth by append: intermediate line prefixes
+		// growth by append: intermediate line prefixes. A torn fragment at the
+		// end of the earlier state (readers ignore it, the next writer cuts it
+		// off before it appends) does not count as content.
+		whole := s.bytes
+		if n := bytes.LastIndexByte(whole, '\n'); n >= 0 {
+			whole = whole[:n+1]
+		} else {
+			whole = nil
+		}
+		if i+1 < len(snaps) && bytes.HasPrefix(snaps[i+1].bytes, whole) {
 			nb := snaps[i+1].bytes
-			for off := len(s.bytes); off < len(nb); off++ {
+			for off := len(whole); off < len(nb); off++ {
 				if nb[off] == '\n' {
 					add(nb[:off+1])
 				}
